@@ -9,11 +9,11 @@ TRUST = ("Trusted base: rustc nightly front end (name resolution, type check, MI
          "equality (see DESIGN.md §4 'not decided').")
 
 CHECKS = {
- "C01": ("other", "Structural necessary conditions of a drop-free parser decided on every path of all 30 parse_from_block4 and all 337 parse call sites: G1 end-of-input check dominates Ok, G2 anchored extraction, G3 no discarded parse error, G4 every parsed field written back (incl. conditionally built sub-structs), G7 option letters detectable, G8 loop progress / exit on error, G9 repetition in duplicate mode, U3/U4 field parsers do not cut their content (fixed slices without an upper length test, take(n) / capped loops without a rejection), U6/U7 accept conditions and delivered values of the MessageParser primitives and of the private parse helpers of message types = reviewed reference (only differences expressible in resolved vocabulary are reported; others are listed as undecided). Value equality up to canonical formatting is not decided.", "§4 C01, §7",
+ "C01": ("other", "Structural necessary conditions of a drop-free parser decided on every path of all 30 parse_from_block4 and all 337 parse call sites: G1 end-of-input check dominates Ok, G2 anchored extraction, G3 no discarded parse error, G4 every parsed field written back (incl. conditionally built sub-structs), G7 option letters detectable, G8 loop progress / exit on error, G9 repetition in duplicate mode, G12 repetition guards (marker sets) = reference, U3/U4 field parsers do not cut their content (fixed slices without an upper length test, take(n) / capped loops without a rejection), U6/U7 accept conditions and delivered values of the MessageParser primitives and of the private parse helpers of message types = reviewed reference (only differences expressible in resolved vocabulary are reported; others are listed as undecided). Value equality up to canonical formatting is not decided.", "§4 C01, §7",
          "must-pass-through, error-discipline and may-flow analysis over the resolved HIR (rustc_private driver) + formula equivalence against a reference"),
  "C02": ("translation_validation", "Parser <-> serialiser sibling comparison for 30 message types (G4 order, G5 tag, G6 kind) and 114 field types (CU component usage), header parse vs Display (H1 tags, H3 components), assembly (H2) and line endings (LE) read from the emission templates, amount rendering vs accepted input (N2, N3), U7 stored components and E1 emission templates of fields, headers and assembly = reviewed reference (semantic template equality). Equality of re-parsed values is not decided.", "§4 C02, §7",
          "translation validation between sibling functions (may-flow grammar extraction + append walk) over resolved HIR"),
- "C03": ("translation_validation", "The library's model is the layout: model <-> parser <-> serialiser kinds and order (G4, G6), option coverage (G7), exact option dispatch (O1), marker-keyed loops (G8), duplicate mode (G9), sibling and reference layouts (G10, G11), co-occurring options (CO), drop-free conditions (G1-G3), field-level accept / store / emit references (U6, U7, E1). No external layout table.", "§4 C03, §7",
+ "C03": ("translation_validation", "The library's model is the layout: model <-> parser <-> serialiser kinds and order (G4, G6), option coverage (G7), exact option dispatch (O1), marker-keyed loops (G8), duplicate mode (G9), sibling and reference layouts and repetition guards (G10, G11, G12), co-occurring options (CO), drop-free conditions (G1-G3), field-level accept / store / emit references (U6, U7, E1). No external layout table.", "§4 C03, §7",
          "translation validation model/parser/serialiser + finite evaluation of option dispatch"),
  "C04": ("other", "V1 rule wiring and per-type rule counts, V2 documented error code = emitted code literal, V3 code tables = reviewed reference (set or sequence semantics by use), V4 path condition of every error site logically equivalent (truth table) to the reviewed reference formula, V4s sibling implementations of one rule equivalent, U6/U7 the value helpers the rules call (codes extracted from a narrative, currency getters) = reference; small helpers and option getters are inlined; a difference confined to unresolved terms is undecided, not reported.", "§4 C04, §7.3",
          "path-condition extraction to boolean formulas over canonical atoms + truth-table equivalence; doc/body contradiction rule"),
@@ -25,7 +25,7 @@ CHECKS = {
          "path-sensitive abstract interpretation (length lower bounds, ASCII-ness, boundary positions, callee summaries) over structured HIR"),
  "C08": ("translation_validation", "JSON surface read from the generated serde code: J1 key uniqueness incl. flattened enums, J2 serialiser keys = deserialiser key table and hand-written key/value provenance, J4 untagged distinguishability, J5 skip symmetry and omission predicate, J6 ordered containers, J7 custom codec symmetry (serialize_with / with on both sides), J8 the publish cleaner selects by nullness / emptiness only, T3 date codec symmetry, T4 no hand-written range guard cuts into a clock / calendar component's range, D1 plugin tables, N1 finite numbers. Value equality after the JSON round trip is not decided.", "§4 C08",
          "extraction of key tables from derive-expanded HIR + set comparison + def-use tracing"),
- "C09": ("other", "G6 mandatory model field <-> mandatory step with that tag, D1 parser type literal = message_type(), G2 anchored extraction, G3 no discarded error, EP error payload dataflow on the MessageParser constructor sites (through constructor helpers), MO minimum-occurrence checks at their loop depth (followed into per-repetition helpers), G1 unexpected trailing field reported, U6/U7 accept conditions and delivered values of the MessageParser primitives = reference, U8 per primitive and ParseError variant the condition under which it is returned = reference, G11 step order = reference layout. Which error wins is not decided.", "§4 C09",
+ "C09": ("other", "G6 mandatory model field <-> mandatory step with that tag, D1 parser type literal = message_type(), G2 anchored extraction, G3 no discarded error, EP error payload dataflow on the MessageParser constructor sites (through constructor helpers), MO minimum-occurrence checks at their loop depth (followed into per-repetition helpers), G1 unexpected trailing field reported, U6/U7 accept conditions and delivered values of the MessageParser primitives = reference, U8 per primitive and ParseError variant the condition under which it is returned = reference, G11 step order = reference layout, G12 repetition guards = reference. Which error wins is not decided.", "§4 C09",
          "kind agreement + def-use tracing of error payloads + formula equivalence"),
  "C10": ("other", "H1 block-3/5 tag sets parse vs Display, H3 stored components written or derived + I/O direction dispatch, H4 emission order follows parse offsets, H5 each header parser is fed from the block with its own index, H2 assembly order and sources (from the emission template), U3 over-long header rejected, U6/U7/E1 accept conditions, stored components (incl. field assignments) and emission templates of header parsers, extract_block and the assembly = reference. Independence of block location from value characters is not decided in general.", "§4 C10",
          "literal-set / offset-order comparison of sibling functions + formula equivalence"),
